@@ -458,6 +458,10 @@ func (fr *Frame) mathCall(name string, args []Val, st *State, pos token.Pos) Val
 		return c.def("max", ite(app(SBool, ">=", ts[0], ts[1]), ts[0], ts[1]))
 	case "Abs":
 		return c.def("abs", ite(app(SBool, ">=", ts[0], real0), ts[0], app(SReal, "-", ts[0])))
+	case "NaN", "Inf":
+		c.note("math.NaN()/math.Inf() are modelled as fixed unknown reals (A-REAL)")
+		c.declareFun("m_"+strings.ToLower(name), nil, SReal)
+		return T{"m_" + strings.ToLower(name), SReal}
 	case "IsNaN", "IsInf":
 		c.note("float64 modelled as mathematical reals: math.IsNaN/IsInf are false (A-REAL)")
 		return tFalse
